@@ -17,9 +17,10 @@ namespace Biogo.Properties.C13_history
 open Biogo.Morass Biogo.MorassConc Biogo.Interleave
 
 /-- **An I/O failure anywhere in a history is never hidden.**  Every chunk size ≥ 1, either
-    mode, AutoClear/AutoClean on or off, every well-formed history `h` of use cycles, any single
+    mode, AutoClear/AutoClean on or off, every well-formed history `h` of use cycles, any
     fault — the n-th temporary-file creation, Encode, Sync, Seek, Decode (in `Finalise` or in
-    `Pull`), Close or Remove of the *whole history*, so in whichever cycle it falls — or none,
+    `Pull`), Close or Remove of the *whole history*, so in whichever cycle it falls — or none, or
+    (third wave) any *list* of faults armed one after the other (`MorassConc.Fault`),
     and every schedule: once the caller has returned from its last call, either some call
     returned an I/O error, or every call of every cycle succeeded *and* the outputs satisfy
     `HistorySpec`: in every cycle the pulls delivered a non-decreasing permutation of the values
@@ -27,8 +28,9 @@ open Biogo.Morass Biogo.MorassConc Biogo.Interleave
     while delivering, in some cycle, fewer or different values than were pushed in it.
 
     (After an I/O error the caller of the model gives up the cycle — sequential mode — or the
-    sorter — concurrent mode; what the code does when it is used on after a reported error is
-    outside this statement, see notes/C13.md.) -/
+    sorter — concurrent mode.  For a list of faults this statement is satisfied as soon as the first
+    failure has been reported; what holds for the failures that follow the caller's recovery is
+    `C13_recovery.recovery_surfaces`.) -/
 theorem history_fault_surfaces (c : Nat) (hc : 1 ≤ c) (conc ac acl : Bool) (h : List Cycle)
     (hwf : wellFormed ac h = true) (flt : Fault) {s : CState}
     (hr : Reach (sys conc c ac acl (histOps h) flt) s) (hfin : finished s = true) :
@@ -42,7 +44,7 @@ theorem history_fault_surfaces (c : Nat) (hc : 1 ≤ c) (conc ac acl : Bool) (h 
 
 /-- without an injected fault no call of a history fails (so the second alternative holds) -/
 theorem history_no_error (c : Nat) (conc ac acl : Bool) (h : List Cycle) {s : CState}
-    (hr : Reach (sys conc c ac acl (histOps h) none) s) : ∀ o ∈ s.outs, o.res ≠ .ioerr :=
+    (hr : Reach (sys conc c ac acl (histOps h) []) s) : ∀ o ∈ s.outs, o.res ≠ .ioerr :=
   (reach_NoFault hr).2.2
 
 /-- non-vacuity: the two-cycle history of `C12_history` with the third Encode of the history
@@ -50,9 +52,9 @@ theorem history_no_error (c : Nat) (conc ac acl : Bool) (h : List Cycle) {s : CS
     interleaves the writers with the caller: the first cycle completes, the failure is reported
     by a call of the second cycle -/
 example : ∃ s, Reach (sys true 1 false false
-      (histOps [⟨[⟨2, 0⟩, ⟨1, 0⟩], 1, true⟩, ⟨[⟨4, 0⟩, ⟨3, 0⟩], 3, false⟩]) (some (.encode, 2))) s
+      (histOps [⟨[⟨2, 0⟩, ⟨1, 0⟩], 1, true⟩, ⟨[⟨4, 0⟩, ⟨3, 0⟩], 3, false⟩]) [(.encode, 2)]) s
     ∧ finished s = true ∧ s.outs.reverse.map (·.res) = [.ok, .ok, .ok, .ok, .ok, .ok, .ok, .ioerr] := by
-  let S := sys true 1 false false (histOps [⟨[⟨2, 0⟩, ⟨1, 0⟩], 1, true⟩, ⟨[⟨4, 0⟩, ⟨3, 0⟩], 3, false⟩]) (some (.encode, 2))
+  let S := sys true 1 false false (histOps [⟨[⟨2, 0⟩, ⟨1, 0⟩], 1, true⟩, ⟨[⟨4, 0⟩, ⟨3, 0⟩], 3, false⟩]) [(.encode, 2)]
   let sched := [0, 0, 0, 1, 0, 1, 0, 1, 0, 1, 0, 1, 0, 0, 0, 0, 0, 0, 0, 0, 0, 0, 0, 2, 0, 2, 0, 2, 0, 2, 0, 0, 0, 0, 0]
   have h : (runFrom S S.init sched).isSome = true := by decide
   obtain ⟨s, hs⟩ := Option.isSome_iff_exists.mp h
@@ -93,11 +95,11 @@ theorem history_rejected_push_noop (c : Nat) (hc : 1 ≤ c) (conc ac acl : Bool)
 /-- non-vacuity (and the shape of the seeded change C12-m3): chunk 2, push 2 1, a rejected Push
     with the chunk exactly full, Finalise, pulls — concurrent mode; the model spawns no writer for
     the rejected call and the pulls deliver 1 2 -/
-example : ∃ s, Reach (sys true 2 false false [.push ⟨2, 0⟩, .push ⟨1, 0⟩, .reject, .finalise, .pull, .pull, .pull] none) s
+example : ∃ s, Reach (sys true 2 false false [.push ⟨2, 0⟩, .push ⟨1, 0⟩, .reject, .finalise, .pull, .pull, .pull] []) s
     ∧ finished s = true ∧ s.writers.length = 0
     ∧ s.outs.reverse.map (·.res) = [.ok, .ok, .rejected, .ok, .ok, .ok, .eof]
     ∧ s.outs.reverse.filterMap (·.val) = [⟨1, 0⟩, ⟨2, 0⟩] := by
-  let S := sys true 2 false false [.push ⟨2, 0⟩, .push ⟨1, 0⟩, .reject, .finalise, .pull, .pull, .pull] none
+  let S := sys true 2 false false [.push ⟨2, 0⟩, .push ⟨1, 0⟩, .reject, .finalise, .pull, .pull, .pull] []
   let sched := [0, 0, 0, 0, 0, 0, 0, 0, 0, 0, 0, 0, 0, 0, 0]
   have h : (runFrom S S.init sched).isSome = true := by decide
   obtain ⟨s, hs⟩ := Option.isSome_iff_exists.mp h
@@ -140,7 +142,7 @@ theorem spec_has_eof (ac : Bool) : ∀ (h : List Cycle) (outs : List Out), Histo
     call the directory is gone. -/
 theorem history_autoclean_drain_removes_dir (c : Nat) (hc : 1 ≤ c) (conc ac : Bool) (h : List Cycle)
     (hwf : wellFormed ac h = true) (cy : Cycle) (hcy : cy ∈ h) (hdrain : cy.pushes.length < cy.pulls)
-    {s : CState} (hr : Reach (sys conc c ac true (histOps h) none) s) (hfin : finished s = true) :
+    {s : CState} (hr : Reach (sys conc c ac true (histOps h) []) s) (hfin : finished s = true) :
     s.dirExists = false := by
   have hacl : s.autoClean = true := autoClean_const hr
   apply (reach_EofDir hr).2 hacl
@@ -153,7 +155,7 @@ theorem history_autoclean_drain_removes_dir (c : Nat) (hc : 1 ≤ c) (conc ac : 
     any schedule — no run file of any cycle is left in the temporary directory. -/
 theorem history_autoclear_drain_no_runs (c : Nat) (hc : 1 ≤ c) (conc : Bool) (done : List Cycle) (cy : Cycle)
     (hwf : wellFormed true (done ++ [cy]) = true) (hdrain : cy.pushes.length < cy.pulls)
-    {s : CState} (hr : Reach (sys conc c true false (histOps (done ++ [cy])) none) s) (hfin : finished s = true) :
+    {s : CState} (hr : Reach (sys conc c true false (histOps (done ++ [cy])) []) s) (hfin : finished s = true) :
     s.onDisk = 0 := by
   have hnf := (reach_NoFault hr).2.2
   have hnr : ¬ Reported s := fun ⟨o, ho, hio⟩ => hnf o ho hio
